@@ -640,6 +640,16 @@ func checkC04(c *Ctx) {
 			return
 		}
 		c.Count("nil_spec_requests", 1)
+		// (nothing requested, a spec given: nothing to refuse, nothing to change)
+		{
+			sp := genOCI(r)
+			bj, _ := json.Marshal(sp)
+			u2, e2 := cache.InjectDevices(sp)
+			aj, _ := json.Marshal(sp)
+			if e2 != nil || len(u2) != 0 || string(bj) != string(aj) {
+				cs.Violation("empty-request", nil, fmt.Sprintf("InjectDevices(spec) with an empty request = %q, %v (spec changed: %v)", u2, e2, string(bj) != string(aj)), nil)
+			}
+		}
 		// (a nil OCI spec is refused whatever the request, the empty one included)
 		if u0, e0 := cache.InjectDevices(nil); e0 == nil || len(u0) != 0 {
 			cs.Violation("nil-spec", nil, fmt.Sprintf("InjectDevices(nil) with an empty request = %q, %v; expected an error and no names", u0, e0), nil)
